@@ -74,6 +74,8 @@ var propAnchorFiles = map[string][]string{
 // behaviour runs through although no call from the anchor files reaches them (the other side of an
 // agreement the property states), one line of reason each.
 var propExtraFiles = map[string][]string{
+	"C02": {"cmd/car/lib/verify.go"},                                                   // `car verify` is the command-line scanning reader
+	"C10": {"cmd/car/index.go"},                                                        // `car index` is the command-line wrap (and its --version 1 the extraction)
 	"C03": {"v2/internal/store/resume.go"},                                             // Resume rebuilds the index from the payload: the third index-building walk
 	"C09": {"v2/blockstore/readonly.go", "v2/storage/storage.go"},                      // the open paths hand the caller's limits to the parsers
 	"C14": {"v2/index_gen.go"},                                                         // the offsets BlockReader reports are stated to agree with the ones index generation records
@@ -90,22 +92,28 @@ type pitfall struct {
 }
 
 var pitfallWhy = map[string]string{
-	"break-leaves-switch":      "an unlabelled `break` inside a `switch`/`select` that sits in a loop leaves the switch, not the loop: the iteration goes on where the author meant to stop",
-	"range-operand-reassigned": "the slice being ranged over is reassigned inside the loop: `range` fixed its length when the loop started, so the index runs past the shortened slice (a panic) or over stale elements",
-	"shadow-never-assigned":    "a variable declared with its zero value is read before anything has been assigned to it, while a variable of the same name is declared with `:=` in an inner scope before that read: the assignment meant for the outer one went to the inner one, and the outer is still zero where it is tested",
-	"shadow-dead-store":        "an assignment to a variable that shadows an outer one of the same name is never read: it was meant for the outer variable, which keeps its old value",
-	"append-to-parameter":      "`append` on a slice parameter writes into the caller's backing array when it has spare capacity: a value the caller appended to the same base slice (another option) is overwritten",
-	"limit-compared-signed":    "an unsigned 64-bit limit is converted to a signed type before it is compared: a limit of 1<<63 or more (\"no limit\") turns negative and every input is refused, or a huge length turns negative and passes",
-	"sentinel-wrapped":         "a sentinel error is formatted into a new error: callers that compare by identity, by type assertion, or (with %v) by errors.Is no longer recognise it",
-	"adapter-constructs-error": "a Read/Write/Seek method builds a new error: callers of an io adapter compare the error of the wrapped call by identity (err == io.EOF ends a scan cleanly; anything else is a failure)",
-	"struct-compared-whole":    "a struct of the repository is compared as a whole: fields that a failed or partial decode has already filled make the value differ from the zero value although the field that was meant is unset",
-	"pure-result-discarded":    "the result of a call without side effects is discarded: a value-receiver method returns the updated copy, and dropping it drops the update",
-	"deferred-error-dropped":   "the error of a deferred call is dropped: a deferred Flush/Sync/Close of something that was written reports the write that did not happen, after the function's result has been decided",
-	"failure-swallowed":        "on the branch where this call failed a return with a nil error is reachable: the failure is tested and then lost (a shadowed `err`, a `break` to a `return nil`, an outer variable returned in place of the inner one)",
-	"parameter-map-mutated":    "a map parameter is modified: the map is the caller's, and what the caller (or a later iteration) reads from it afterwards has changed",
-	"stored-before-checked":    "a result is stored into longer-lived state before the error that came with it is tested: on failure the state holds a nil pointer in an interface (which compares non-nil) or a half-made value, and later calls take it for a usable one",
-	"shared-struct-copied":     "a struct that holds pointers, maps or slices is copied by value out of shared state: the copy shares the tree, map or backing array with the original, so it is neither a snapshot (later mutations show through) nor independent (its own mutations hit the original)",
-	"dynamic-type-fast-path":   "a type assertion on a parameter selects a different path by dynamic type: the fast path and the general path must agree on ownership of buffers, on position and on errors, and nothing checks that they do",
+	"break-leaves-switch":       "an unlabelled `break` inside a `switch`/`select` that sits in a loop leaves the switch, not the loop: the iteration goes on where the author meant to stop",
+	"range-operand-reassigned":  "the slice being ranged over is reassigned inside the loop: `range` fixed its length when the loop started, so the index runs past the shortened slice (a panic) or over stale elements",
+	"shadow-never-assigned":     "a variable declared with its zero value is read before anything has been assigned to it, while a variable of the same name is declared with `:=` in an inner scope before that read: the assignment meant for the outer one went to the inner one, and the outer is still zero where it is tested",
+	"shadow-dead-store":         "an assignment to a variable that shadows an outer one of the same name is never read: it was meant for the outer variable, which keeps its old value",
+	"append-to-parameter":       "`append` on a slice parameter writes into the caller's backing array when it has spare capacity: a value the caller appended to the same base slice (another option) is overwritten",
+	"limit-compared-signed":     "an unsigned 64-bit limit is converted to a signed type before it is compared: a limit of 1<<63 or more (\"no limit\") turns negative and every input is refused, or a huge length turns negative and passes",
+	"sentinel-wrapped":          "a sentinel error is formatted into a new error: callers that compare by identity, by type assertion, or (with %v) by errors.Is no longer recognise it",
+	"adapter-constructs-error":  "a Read/Write/Seek method builds a new error: callers of an io adapter compare the error of the wrapped call by identity (err == io.EOF ends a scan cleanly; anything else is a failure)",
+	"struct-compared-whole":     "a struct of the repository is compared as a whole: fields that a failed or partial decode has already filled make the value differ from the zero value although the field that was meant is unset",
+	"pure-result-discarded":     "the result of a call without side effects is discarded: a value-receiver method returns the updated copy, and dropping it drops the update",
+	"deferred-error-dropped":    "the error of a deferred call is dropped: a deferred Flush/Sync/Close of something that was written reports the write that did not happen, after the function's result has been decided",
+	"failure-swallowed":         "on the branch where this call failed a return with a nil error is reachable: the failure is tested and then lost (a shadowed `err`, a `break` to a `return nil`, an outer variable returned in place of the inner one)",
+	"parameter-map-mutated":     "a map parameter is modified: the map is the caller's, and what the caller (or a later iteration) reads from it afterwards has changed",
+	"stored-before-checked":     "a result is stored into longer-lived state before the error that came with it is tested: on failure the state holds a nil pointer in an interface (which compares non-nil) or a half-made value, and later calls take it for a usable one",
+	"shared-struct-copied":      "a struct that holds pointers, maps or slices is copied by value out of shared state: the copy shares the tree, map or backing array with the original, so it is neither a snapshot (later mutations show through) nor independent (its own mutations hit the original)",
+	"pooled-object":             "an object is taken from or returned to a sync.Pool: whatever still refers to it when it goes back (a slice handed to a writer, a buffer a second opener is filling) is overwritten by the next user",
+	"buffered-writer-unflushed": "a bufio.Writer is created here and a return that reports success is reachable without Flush: what is still in the buffer (all of a small output) never reaches the destination, while offsets and index entries already count it",
+	"context-mismatch":          "a select case that fires on one context's Done() returns another context's Err(): when only the first one is cancelled the function stops and returns nil",
+	"flag-presence-for-value":   "cli.Context.IsSet is used where the pinned tree reads the flag's value: `--flag=false` counts as set, and a default that is true counts as unset",
+	"big-endian":                "binary.BigEndian in a repository whose formats (CARv2 header, characteristics, index records and counts) are little-endian throughout: the bytes written or reported are reversed",
+	"unverified-scan":           "BlockReader.SkipNext is the scan that does not hash: a caller the pinned tree does not have reads CIDs it never checks against the bytes",
+	"dynamic-type-fast-path":    "a type assertion on a parameter selects a different path by dynamic type: the fast path and the general path must agree on ownership of buffers, on position and on errors, and nothing checks that they do",
 }
 
 // ---- collection --------------------------------------------------------------------------------
@@ -509,6 +517,16 @@ func ssaPitfalls(c *Ctx) []pitfall {
 				}
 			}
 			eachInstr(g, func(in ssa.Instruction) {
+				for _, op := range in.Operands(nil) {
+					if gl, ok := (*op).(*ssa.Global); ok && gl.Pkg != nil && gl.Pkg.Pkg.Path() == "encoding/binary" && gl.Name() == "BigEndian" {
+						add("big-endian", in.Pos(), "binary.BigEndian")
+					}
+				}
+				if sel, ok := in.(*ssa.Select); ok {
+					for _, pos := range contextMismatch(g, sel) {
+						add("context-mismatch", pos, "Err() of a context other than the one whose Done() fired")
+					}
+				}
 				switch x := in.(type) {
 				case *ssa.Call:
 					cc := x.Common()
@@ -526,6 +544,26 @@ func ssaPitfalls(c *Ctx) []pitfall {
 						return
 					}
 					f := calleeFunc(cc)
+					if funcIs(f, "sync", "Pool", "Get") || funcIs(f, "sync", "Pool", "Put") {
+						addS("pooled-object", f.Name(), x.Pos(), "sync.Pool."+f.Name())
+					}
+					if f != nil && f.Name() == "IsSet" && f.Pkg() != nil && strings.HasSuffix(f.Pkg().Path(), "urfave/cli/v2") {
+						name := ""
+						if len(cc.Args) > 1 {
+							if k, ok := cc.Args[len(cc.Args)-1].(*ssa.Const); ok && k.Value != nil {
+								name = k.Value.ExactString()
+							}
+						}
+						addS("flag-presence-for-value", name, x.Pos(), "IsSet("+name+")")
+					}
+					if funcIs(f, modV2, "BlockReader", "SkipNext") {
+						add("unverified-scan", x.Pos(), "BlockReader.SkipNext")
+					}
+					if funcIs(f, "bufio", "", "NewWriter") || funcIs(f, "bufio", "", "NewWriterSize") {
+						if pos := unflushedReturn(g, x); pos != token.NoPos {
+							add("buffered-writer-unflushed", x.Pos(), "the return at "+c.Pos(pos)+" is reachable without Flush")
+						}
+					}
 					if funcIs(f, "fmt", "", "Errorf") {
 						if isAdapterMethod {
 							addS("adapter-constructs-error", "fmt.Errorf", x.Pos(), "fmt.Errorf in "+g.Name())
@@ -607,7 +645,7 @@ func ssaPitfalls(c *Ctx) []pitfall {
 						}
 					}
 				case *ssa.TypeAssert:
-					if x.CommaOk && !types.Identical(x.AssertedType, x.X.Type()) {
+					if x.CommaOk && !types.Identical(x.AssertedType, x.X.Type()) && liveBlocks(g)[x.Block()] {
 						if p := rootsAtParam(x.X, 0); p != nil {
 							if _, isErr := p.Type().Underlying().(*types.Interface); isErr && !types.Identical(p.Type(), errT) {
 								addS("dynamic-type-fast-path", pinnedTypeNames(assertedTypeKey(x.AssertedType)), x.Pos(), p.Name()+".("+assertedTypeKey(x.AssertedType)+")")
@@ -1216,4 +1254,155 @@ func listPitfalls(c *Ctx) []string {
 	}
 	sort.Strings(out)
 	return out
+}
+
+// unflushedReturn: a return that reports success (a nil error, or any return of a function
+// without an error result) is reachable from the creation of the bufio.Writer without passing a
+// Flush of it. A deferred Flush counts as passing (its dropped error is another kind); a writer
+// that escapes (returned, stored into a field) is somebody else's to flush.
+func unflushedReturn(g *ssa.Function, mk *ssa.Call) token.Pos {
+	errT := types.Universe.Lookup("error").Type()
+	isW := func(v ssa.Value) bool { return canon(v) == ssa.Value(mk) || v == ssa.Value(mk) }
+	flushBlocks := map[*ssa.BasicBlock]bool{}
+	escapes, deferred := false, false
+	for _, h := range withAnon(g) {
+		eachInstr(h, func(in ssa.Instruction) {
+			switch x := in.(type) {
+			case *ssa.Call:
+				if funcIs(calleeFunc(x.Common()), "bufio", "Writer", "Flush") && len(x.Call.Args) > 0 && isW(x.Call.Args[0]) && h == g {
+					flushBlocks[x.Block()] = true
+				}
+			case *ssa.Defer:
+				if funcIs(calleeFunc(x.Common()), "bufio", "Writer", "Flush") && len(x.Call.Args) > 0 && isW(x.Call.Args[0]) {
+					deferred = true
+				}
+			case *ssa.Store:
+				if isW(x.Val) {
+					if _, local := addrRoot(x.Addr).(*ssa.Alloc); !local {
+						escapes = true
+					}
+				}
+			case *ssa.Return:
+				for _, r := range x.Results {
+					if isW(r) {
+						escapes = true
+					}
+				}
+			}
+		})
+	}
+	if escapes || deferred {
+		return token.NoPos
+	}
+	cut := EdgeSet{}
+	for _, b := range g.Blocks {
+		for i, s := range b.Succs {
+			if flushBlocks[s] {
+				cut[Edge{From: b, Succ: i}] = true
+			}
+		}
+	}
+	if flushBlocks[mk.Block()] {
+		return token.NoPos
+	}
+	rs := reach(g, mk.Block(), cut)
+	res := g.Signature.Results()
+	hasErr := res.Len() > 0 && types.Identical(res.At(res.Len()-1).Type(), errT)
+	for _, ret := range returnsOf(g) {
+		if !rs[ret.Block()] || flushBlocks[ret.Block()] {
+			continue
+		}
+		if !hasErr {
+			return ret.Pos()
+		}
+		rv := retResult(ret, len(ret.Results)-1)
+		if isNilConst(rv) || nilness(rv, ret.Block()) == 1 {
+			return ret.Pos()
+		}
+	}
+	return token.NoPos
+}
+
+// contextMismatch: for every case of the select that receives from A.Done(), the block the case
+// leads to calls Err() on a value other than A.
+func contextMismatch(g *ssa.Function, sel *ssa.Select) []token.Pos {
+	var out []token.Pos
+	doneOf := func(ch ssa.Value) ssa.Value {
+		cl, ok := canon(ch).(*ssa.Call)
+		if !ok || !cl.Call.IsInvoke() || cl.Call.Method.Name() != "Done" {
+			return nil
+		}
+		return canon(cl.Call.Value)
+	}
+	var idx ssa.Value
+	for _, r := range *sel.Referrers() {
+		if ex, ok := r.(*ssa.Extract); ok && ex.Index == 0 {
+			idx = ex
+		}
+	}
+	if idx == nil {
+		return nil
+	}
+	for i, st := range sel.States {
+		a := doneOf(st.Chan)
+		if a == nil || st.Dir != types.RecvOnly {
+			continue
+		}
+		for _, b := range g.Blocks {
+			if len(b.Instrs) == 0 {
+				continue
+			}
+			iff, ok := b.Instrs[len(b.Instrs)-1].(*ssa.If)
+			if !ok {
+				continue
+			}
+			cmp, ok := iff.Cond.(*ssa.BinOp)
+			if !ok || cmp.Op != token.EQL || cmp.X != idx {
+				continue
+			}
+			if k, ok := constInt(cmp.Y); !ok || int(k) != i {
+				continue
+			}
+			tgt := b.Succs[0]
+			if len(tgt.Preds) != 1 {
+				continue
+			}
+			for _, in := range tgt.Instrs {
+				cl, ok := in.(*ssa.Call)
+				if !ok || !cl.Call.IsInvoke() || cl.Call.Method.Name() != "Err" {
+					continue
+				}
+				if recv := canon(cl.Call.Value); !sameCell(recv, a) {
+					if _, isCtx := recv.Type().Underlying().(*types.Interface); isCtx {
+						out = append(out, cl.Pos())
+					}
+				}
+			}
+		}
+	}
+	return out
+}
+
+// sameCell: the same value, or two loads of the same variable (a captured context is loaded anew
+// at every use).
+func sameCell(a, b ssa.Value) bool {
+	if a == b {
+		return true
+	}
+	la, ok1 := a.(*ssa.UnOp)
+	lb, ok2 := b.(*ssa.UnOp)
+	return ok1 && ok2 && la.Op == token.MUL && lb.Op == token.MUL && la.X == lb.X
+}
+
+// liveBlocks: the blocks of g reachable from its entry when constant conditions are folded (a flag
+// argument of an inlined helper that is a constant at this call site).
+var liveCache = map[*ssa.Function]map[*ssa.BasicBlock]bool{}
+
+func liveBlocks(g *ssa.Function) map[*ssa.BasicBlock]bool {
+	if m, ok := liveCache[g]; ok {
+		return m
+	}
+	m := reach(g, nil, nil)
+	liveCache[g] = m
+	return m
 }
